@@ -422,9 +422,32 @@ class Pickled(OpcodeSequence):
         return self._opcodes[index]
 
     def insert(self, index: int, opcode: Opcode):
+        size_before = len(self._opcodes)
         self._opcodes.insert(index, opcode)
         self._ast = None
         self._properties = None
+        # where list.insert() actually put it
+        position = min(index, size_before) if index >= 0 else max(0, size_before + index)
+        self._grow_enclosing_frame(position)
+
+    def _grow_enclosing_frame(self, position: int):
+        """If the opcode just inserted at `position` lies inside a FRAME, that frame now has to cover
+        its bytes as well: an unpickler reading from a stream trusts the announced frame length."""
+        offset = 0
+        frame: Optional[Opcode] = None
+        frame_start = 0
+        try:
+            for opcode in self._opcodes[:position]:
+                offset += len(opcode.data)
+                if isinstance(opcode, Frame):
+                    frame, frame_start = opcode, offset
+            if frame is None or not isinstance(frame.arg, int) or offset >= frame_start + frame.arg:
+                return  # not inside a frame (or exactly at the end of one)
+            new_length = frame.arg + len(self._opcodes[position].data)
+        except NotImplementedError:
+            return  # an opcode without an encoder: nothing sensible can be computed
+        frame.arg = new_length
+        frame.data = frame.encode_opcode() + struct.pack("<Q", new_length)
 
     def _is_constant_type(self, obj: Any) -> bool:
         return isinstance(obj, (int, float, str, bytes))
